@@ -7,7 +7,7 @@ From Coq Require Import List NArith.
 Local Open Scope string_scope.
 Local Open Scope list_scope.
 Import ListNotations.
-From UV Require Import Py.Val Py.Str Py.Utf8 Py.UrlLib Py.Pct Gen.Tables Ural.Quote Spec.C14 Proofs.QuoteFacts Proofs.UnquoteFacts Proofs.UnquoteAscii.
+From UV Require Import Py.Val Py.Str Py.Utf8 Py.UrlLib Py.Pct Gen.Tables Ural.Quote Spec.C14 Proofs.QuoteFacts Proofs.UnquoteFacts Proofs.UnquoteAscii Proofs.UnquoteRuns.
 
 (* safely_quote: pure ASCII, every pre-existing escape kept, everything else escaped unless
    unreserved or '/'; hence same decoded bytes; quoting twice = quoting once *)
@@ -60,23 +60,29 @@ Theorem C14_unquote_plain_text : forall unsafe s,
   mem 37%N s = false -> mem 32%N s = false -> safely_unquote unsafe s = s.
 Proof. exact safely_unquote_plain_text. Qed.
 
-(* the main statement for the four unquoters, proved for every ASCII string whose escapes stand for ASCII bytes (every
-   delimiter / '%' / space / control / double-decoding / text-becomes-escape case lives there): the output re-tokenises
-   into kept escapes and once-decoded characters exactly as the decider `unquote_ok` of Spec/C14.v demands.  Strings
-   with non-ASCII text or escapes >= %80 (utf-8 flushing) are decided by the harness with the same decider. *)
-Theorem C14_unquote_ascii : forall s, ascii s -> low_escapes s = true ->
+(* the main statement for the four unquoters, proved for EVERY string (raw non-ASCII text included) whose escapes
+   stand for ASCII bytes -- every delimiter / '%' / space / control / double-decoding / text-becomes-escape case lives
+   there: the output re-tokenises into kept escapes and once-decoded characters exactly as the decider `unquote_ok` of
+   Spec/C14.v demands.  Strings with escapes >= %80 (utf-8 flushing of the model) are decided by the harness with the
+   same decider. *)
+Theorem C14_unquote_low_escapes : forall s, forallb lowP (tokens s) = true ->
   unquote_ok R_auth s (safely_unquote_auth_item s) = true /\
   unquote_ok R_path s (safely_unquote_path s) = true /\
   unquote_ok R_query s (safely_unquote_query_item s) = true /\
   unquote_ok R_fragment s (safely_unquote_fragment s) = true.
-Proof. exact four_unquoters_ascii_ok. Qed.
+Proof. exact four_unquoters_low_ok. Qed.
 
 (* and for any table of characters to keep escaped that contains '%', against any required set it covers *)
-Theorem C14_unquote_ascii_general : forall (unsafe required : list N) (s : str),
+Theorem C14_unquote_low_escapes_general : forall (unsafe required : list N) (s : str),
   mem 37%N unsafe = true -> (forall c, mem c required = true -> mem c unsafe = true) -> mem 32%N required = true ->
-  ascii s -> low_escapes s = true ->
+  forallb lowP (tokens s) = true ->
   unquote_ok required s (safely_unquote unsafe s) = true.
-Proof. exact safely_unquote_ascii_ok. Qed.
+Proof. exact safely_unquote_low_ok. Qed.
+
+(* the hypothesis is about escapes only: raw text of any kind is allowed *)
+Example C14_low_escapes_example :
+  forallb lowP (tokens (lit "é%2541 €%2F%zz%%34%31")) = true /\ forallb lowP (tokens (lit "%C3%A9")) = false.
+Proof. vm_compute. split; reflexivity. Qed.
 
 Example C14_examples :
   safely_unquote_path (lit "%2541") = lit "%2541" /\
@@ -102,6 +108,6 @@ Print Assumptions C14_untok_tokens.
 Print Assumptions C14_tokens_untok.
 Print Assumptions C14_delims_ok.
 Print Assumptions C14_unquote_no_raw_space.
-Print Assumptions C14_unquote_ascii.
-Print Assumptions C14_unquote_ascii_general.
+Print Assumptions C14_unquote_low_escapes.
+Print Assumptions C14_unquote_low_escapes_general.
 Print Assumptions C14_unquote_plain_text.
